@@ -49,7 +49,8 @@ HELPERS = ['Lcapy/Proofs/SpecialFnBase.lean', 'Lcapy/Model/Evaluate.lean', 'Lcap
            'Lcapy/Model/Response.lean', 'Lcapy/Generated/SimCompanion.lean', 'Lcapy/Proofs/SimStepBase.lean',
            'Lcapy/Proofs/ResponseBase.lean', 'Lcapy/Model/EvalLimit.lean', 'Lcapy/Proofs/EvalLimitBase.lean', 'Lcapy/Model/FloatEval.lean',
            'Lcapy/Generated/FloatTests.lean']
-PROPS = ['Lcapy/Props/C17.lean', 'Lcapy/Props/C17Sim.lean', 'Lcapy/Props/C17Resp.lean', 'Lcapy/Props/C17Limit.lean', 'Lcapy/Props/C17Float.lean']
+PROPS = ['Lcapy/Props/C17.lean', 'Lcapy/Props/C17Sim.lean', 'Lcapy/Props/C17Resp.lean', 'Lcapy/Props/C17Limit.lean', 'Lcapy/Props/C17Float.lean',
+         'Lcapy/Props/NonVacuityC17.lean']
 
 CONT_FNS = ['heaviside', 'dirac', 'sign', 'rect', 'tri', 'ramp', 'rampstep', 'sincn', 'sincu', 'sinc']
 DISC_FNS = ['unitstep', 'unitimpulse', 'dtrect', 'dtsign']
